@@ -760,6 +760,11 @@ FIXED = [
      "shared-do-cpp"),
     ("program p\ndo 10 i=1,3\nx = 1\nend do\n10 continue\nend program p\n", "enddo-label-mismatch"),
     ("program p\ndo 10 i=1,3\n20 end do\nend program p\n", "enddo-wrong-label"),
+    ("program p\nouter: do 24 k=1,2\n24 end do wrong\nend program p\n", "labeldo-wrong-name"),
+    ("program p\nouter: do 24 k=1,2\n24 end do outer\nend program p\n", "labeldo-name-ok"),
+    ("program p\nouter: do 24 k=1,2\n24 end do\nend program p\n", "labeldo-name-missing"),
+    ("program p\ndo 24 k=1,2\n24 end do nm\nend program p\n", "labeldo-name-nostart"),
+    ("program p\nouter: do 24 k=1,2\ninner: do 24 j=1,2\n24 continue\nend program p\n", "labeldo-shared-named"),
     ("block data\nend block data bd\n", "unnamed-start"),
     ("module m\ncontains\nsubroutine s\nblock data\nend block data bd\nend subroutine s\nend module m\n",
      "unnamed-start-nested"),
